@@ -16,7 +16,7 @@ class C12(Prop):
     LONG_BIAS = 0.2
     BACKENDS = ("file", "file", "memory")
     WEIGHTS = {"page": 4, "pages": 2, "links": 1, "batch": 2, "again": 0, "create": 5, "delete": 4, "addprefix": 1,
-               "rmprefix": 1, "move": 1, "rule": 2, "unrule": 1, "reopen": 4, "clear": 1}
+               "rmprefix": 1, "move": 1, "rule": 2, "unrule": 1, "reopen": 4, "clear": 1, "recreate": 1}
     QUICK = (40, 22)
     THOROUGH = (200, 40)
     TECHNIQUE = ("stateful property-based testing (Hypothesis) against a ledger oracle; thorough tier adds coverage-guided "
@@ -31,7 +31,7 @@ class C12(Prop):
     def after_op(self, case, op, out, pre):
         ctx, led = case.ctx, case.led
         st = case.state
-        if op[0] == "clear":
+        if op[0] in ("clear", "recreate"):
             pre = {"max": 0, "issued": set()}
         if op[0] == "delete" and out.status == "ok":
             st["deleted"] = True
